@@ -29,7 +29,8 @@ runtime residue exercised by the harness (`c33_*` families), not claimed here.
   without an advancing record.
 * `alloc_bounded` — for every compressed-certificate message `decompressCert` requests at most
   `maxHandshakeCertificateMsg + 4` bytes (full statement; false before the repair of D18, whose witness stays in
-  the corpus); `alloc_refused_beyond_limit`, `decompress_alloc_only_if_advertised`; `decompress_alloc_no_panic` —
+  the corpus); `alloc_refused_beyond_limit`, `decompress_alloc_only_if_advertised`; `decompress_reads_bounded` — the
+  decoder is asked for at most declared + 1 ≤ limit + 1 bytes of any stream (no draining); `decompress_alloc_no_panic` —
   its index expressions are in range.
 -/
 namespace C33
@@ -420,6 +421,30 @@ theorem decompress_alloc_only_if_advertised (adv : List Nat) (m : CompCert) (dec
       · have hd : (!decide (m.alg = 1 ∨ m.alg = 2 ∨ m.alg = 3)) = true := by simp [h2]
         simp only [hd, if_true]
         intro h; cases h
+
+/-- **the decoder is never drained**: for every advertised set, message and decompressed stream — of any
+size — the number of decompressed bytes `decompressCert` requests from the decoder is at most the declared
+length + 1, hence at most the certificate-message limit + 1. (Seeded change C33-1 replaced the one-byte probe by
+`io.ReadAll`: there the bytes pulled equal the stream length, which this bound excludes.) -/
+theorem decompress_reads_bounded (adv : List Nat) (m : CompCert) (decoded : Option Bytes) :
+    decompressPulled adv m decoded ≤ m.ulen + 1 ∧ decompressPulled adv m decoded ≤ maxHandshakeCert + 1 := by
+  unfold decompressPulled
+  split
+  · simp
+  · split
+    · simp
+    · rename_i hg
+      split
+      · simp
+      · cases decoded with
+        | none => simp
+        | some out => simp only; split <;> omega
+
+/-- a stream of any length n > 1500 behind a declared length of 1500: 1501 bytes are pulled. -/
+example (n : Nat) (h : 1500 < n) :
+    decompressPulled [1, 2, 3] ⟨2, 1500, []⟩ (some (List.replicate n 0)) = 1501 := by
+  have : ¬ n ≤ 1500 := by omega
+  simp [decompressPulled, maxHandshakeCert, this]
 
 example : decompress [2] ⟨3, 16777215, []⟩ (some []) (fun _ => true) = (.unadvertised, none) := by decide
 example : decompress [1, 2, 3] ⟨2, 16777215, []⟩ (some []) (fun _ => true) = (.tooLarge, none) := by decide
